@@ -117,7 +117,8 @@ def run_shard(shard, tier, seed):
     if shard[0] == "hist":
         res = common.ShardResult()
         _, t, vmode, pname = shard
-        seen = hist.explore(t, vmode, pname, 1 if tier == "quick" else 2, OPTS, judge_hist, res, seed)
+        # (types holding union references get a second level in the quick tier: the same foreign object bound twice)
+        seen = hist.explore(t, vmode, pname, (2 if any(s_[0] == "U" for s_ in xt.subtypes(t)) else 1) if tier == "quick" else 2, OPTS, judge_hist, res, seed)
         if seen:
             res.states = res.nontrivial = len(seen)
         return res
